@@ -265,6 +265,14 @@ var errConstructs = []struct {
 	{"{{ \"bad \\q escape\" }}", true},
 	{"{% if a\n %}x{% endif %}", true},
 	{"{{ a ~ }}", true},
+	// execution errors raised inside filters
+	{"{{ a|date:\"2006\" }}", false},
+	{"{{ \"s\"|pluralize }}", false},
+	{"{{ a|slice:\"x\" }}", false},
+	{"{{ a|pluralize:\"a,b,c\" }}", false},
+	{"{{ a|floatformat:2000 }}", false},
+	{"{{ \"x\"|center:100000 }}", false},
+	{"{{ 1 / 0 }}", false},
 	// arguments that stop short: the parser has no token left to blame
 	{"{% for item %}x{% endfor %}", true},
 	{"{% set answer %}", true},
